@@ -327,6 +327,23 @@ def wv_config_part(only=None):
             if got is None or abs(got - want) > want * F(1, 10**9):
                 fails.append((f"under default_weight_volume_units = {unit!r}, {s!r} is read as {r[1:]} = {None if got is None else float(got)!r} g/L; "
                               f"{s.split()[0]} hundredths of a {unit} are {float(want)!r} g/L", {'kind': 'wv-config', 'unit': unit, 'string': s}))
+    # the same with the setting changed in a running session (the library reads its configuration object when it parses)
+    if not only or only == 'runtime':
+        from pyplate import Unit
+        from pyplate.pyplate import config
+        saved = config.default_weight_volume_units
+        try:
+            for unit, per_L in (('g/L', F(1)), ('mg/mL', F(1))):
+                config.default_weight_volume_units = unit
+                v, nu, du = Unit.parse_concentration('5 %w/v')
+                (pn, bn) = [(nu[:-len(b)], b) for b in ('mol', 'L', 'g', 'U') if nu.endswith(b)][0]
+                (pd_, bd) = [(du[:-len(b)], b) for b in ('mol', 'L', 'g', 'U') if du.endswith(b)][0]
+                got = F(repr(v)) * SI[pn] / SI[pd_]
+                if (bn, bd) != ('g', 'L') or abs(got - F(5, 100) * per_L) > F(1, 10**9):
+                    fails.append((f"after config.default_weight_volume_units = {unit!r} in a running session, '5 %w/v' is read as {(v, nu, du)} = {float(got)!r} g/L; "
+                                  f"five hundredths of a {unit} are {float(F(5, 100) * per_L)!r} g/L", {'kind': 'wv-config', 'unit': 'runtime'}))
+        finally:
+            config.default_weight_volume_units = saved
     return fails
 
 
